@@ -8,4 +8,8 @@ def run(tier, seed):
                 "records every byte and the position of the verification; non-trivial = distinct (store, host:port, presented, operation)")
     recs = c03.run_histories(tier, seed + 11, tofu_modes=(True, True, True, False))
     c03.judge(recs, res, "C11", ["C11.ok"])
+    # over a real TLS handshake: pin certificate A, then the same host:port presents certificate B (get and upload)
+    import livepair
+    livepair.run_cert_change(res, tier)
+    res.rule += " | plus, over real loopback TLS: a fetch pins certificate A, then a recording server presents certificate B on the same port: get and upload must fail 'changed' and the server must receive no application byte"
     return res
